@@ -1,5 +1,6 @@
 import DrummerVerif.Lemmas.C14N
 import DrummerVerif.Lemmas.C14G
+import DrummerVerif.Lemmas.C14F
 /-!
 # C14 — Drummer leadership: holder-only, stable under renewal, bounded takeover
 
@@ -98,6 +99,38 @@ theorem no_unknown_state_panic :
     ∀ (ss : List Srv) (r : Rec),
     GReach ss r → ∀ (s : Srv), s ∈ ss → ∀ (cancel : Bool), ∃ p, turn s r cancel = some p :=
   @_root_.Elect.no_unknown_state_panic
+
+theorem partial_failure_turn_refines_turn :
+    ∀ (s : SrvF) (r : Rec), Option.map (fun p => (p.fst.base, p.snd)) (turnF s r 0) = turn s.base r false :=
+  @_root_.Elect.turnF_no_failure
+
+theorem whole_failure_turn_is_failed_turn :
+    ∀ (s : SrvF) (r : Rec),
+      Option.map (fun p => (p.fst.base, p.snd)) (turnF s r 1) = turn s.base r true :=
+  @_root_.Elect.turnF_whole_failure
+
+theorem leader_only_after_own_id_with_failures :
+    ∀ (s s' : SrvF) (r r' : Rec) (fa : Nat),
+      turnF s r fa = some (s', r') →
+        s.base.leader = false →
+          s'.base.leader = true → fails fa 1 = false ∧ (recInst r = s.base.id ∨ recInst r' = s.base.id) :=
+  @_root_.Elect.turnF_leader_only_after_own_id
+
+theorem step_down_with_failures :
+    ∀ (s s' : SrvF) (r r' : Rec) (fa : Nat),
+      turnF s r fa = some (s', r') →
+        s.base.leader = true → fails fa 1 = true ∨ recInst r ≠ s.base.id → s'.base.leader = false :=
+  @_root_.Elect.turnF_step_down
+
+theorem record_changes_only_by_own_cas :
+    ∀ (s s' : SrvF) (r r' : Rec) (fa : Nat),
+      turnF s r fa = some (s', r') → r' = r ∨ ∃ old t, r' = (write r s.base.id old t).fst :=
+  @_root_.Elect.turnF_record
+
+theorem partial_failure_turn_panics_iff :
+    ∀ (s : SrvF) (r : Rec) (fa : Nat),
+      fails fa 1 = false → (turnF s r fa = none ↔ turn s.base r false = none) :=
+  @_root_.Elect.turnF_panics_iff
 
 end C14
 end Elect
